@@ -1,6 +1,7 @@
 """In-memory model of the fact base: Program -> Body -> blocks/statements/terminators,
 with CFG helpers (successors without unwind edges, dominators, reachability), place and
 operand wrappers, and a MIR pretty printer used in reports."""
+import os
 import re
 from collections import defaultdict
 
@@ -571,10 +572,211 @@ class Body:
         return "\n".join(out)
 
 
+_TABLES = os.path.join(os.path.dirname(os.path.dirname(os.path.abspath(__file__))), "tables")
+
+
+def signature(bj):
+    ls = bj["locals"]
+    return "(%s) -> %s" % (", ".join(l["ty"] for l in ls[1:bj["arg_count"] + 1]), ls[0]["ty"])
+
+
+def _known_functions(config=None):
+    """{key: signature} of the reference tree for this configuration (all configurations when config is None)."""
+    p = os.path.join(_TABLES, "known_functions.txt")
+    out = {}
+    if os.path.exists(p):
+        for ln in open(p).read().split("\n"):
+            x = ln.split("\t")
+            if len(x) == 3 and (config is None or x[0] == config):
+                out[x[1]] = x[2]
+    return out
+
+
+def _known_fields():
+    p = os.path.join(_TABLES, "known_fields.txt")
+    out = {}
+    if os.path.exists(p):
+        for ln in open(p).read().split("\n"):
+            x = ln.split("\t")
+            if len(x) == 5:
+                out[(x[0], x[1], int(x[2]))] = (x[3], x[4])
+    return out
+
+
+def normalise_renames(data, known, kfields, log=None):
+    """Resolve unambiguous renames back to the names the rules know: a function of the reference tree that is missing while
+    exactly one unknown function with the same parent path and the same signature exists (and vice versa) is that function
+    under a new name; likewise a field whose name changed while index and type stayed. Anything ambiguous is left alone and
+    the rules that need the old name fail closed (ANCHOR-MISSING)."""
+    if not known:
+        return
+    present = {}
+    for c, d in data.items():
+        for bj in d["bodies"]:
+            present[bj["id"]["key"]] = bj
+    plain = lambda k: "{closure" not in k
+    missing = [k for k in known if k not in present and plain(k)]
+    new = [k for k in present if k not in known and plain(k)]
+    par = lambda k: k.rsplit("::", 1)[0]
+    alias = {}
+    for k in missing:
+        cand = [n for n in new if par(n) == par(k) and signature(present[n]) == known[k]]
+        if len(cand) == 1:
+            back = [k2 for k2 in missing if par(k2) == par(cand[0]) and known[k2] == known[k]]
+            if len(back) == 1:
+                alias[cand[0]] = k
+    # fields: same adt / variant / index / type, different name
+    falias = {}     # (index, new name) -> old name
+    for c, d in data.items():
+        for a in d["adts"]:
+            for v in a["variants"]:
+                names = {f["name"] for f in v["fields"]}
+                for i, f in enumerate(v["fields"]):
+                    kf = kfields.get((a["adt"], v["name"], i))
+                    if kf and kf[0] != f["name"] and kf[1] == f["ty"] and kf[0] not in names and len(v["fields"]) == len([1 for kk in kfields if kk[:2] == (a["adt"], v["name"])]):
+                        falias[(i, f["name"])] = kf[0]
+                        if log is not None:
+                            log.append(("field", "%s.%s" % (a["adt"], f["name"]), kf[0]))
+                        f["name"] = kf[0]
+    if not alias and not falias:
+        return
+    if log is not None:
+        log.extend(("fn", n, k) for n, k in alias.items())
+
+    def ren(s):
+        if s in alias:
+            return alias[s]
+        for n, k in alias.items():
+            if s.startswith(n + "::"):
+                return k + s[len(n):]
+        return s
+
+    def walk(x):
+        if isinstance(x, dict):
+            for kk, v in list(x.items()):
+                if kk in ("key", "parent", "def", "owner") and isinstance(v, str):
+                    nv = ren(v)
+                    if nv != v:
+                        x[kk] = nv
+                        if kk == "key" and "name" in x and isinstance(x["name"], str) and "{closure" not in nv:
+                            x["name"] = nv.rsplit("::", 1)[-1]
+                elif kk == "items" and isinstance(v, list):
+                    x[kk] = [ren(s) if isinstance(s, str) else s for s in v]
+                elif kk == "fields" and isinstance(v, list) and falias:
+                    x[kk] = [falias.get((i, s), s) if isinstance(s, str) else s for i, s in enumerate(v)]
+                    for s in v:
+                        walk(s)
+                else:
+                    walk(v)
+            if falias and "f" in x and "n" in x and (x["f"], x["n"]) in falias:
+                x["n"] = falias[(x["f"], x["n"])]
+        elif isinstance(x, list):
+            for v in x:
+                walk(v)
+    walk(data)
+
+
+def _term_key(t):
+    if t.get("resolved"):
+        return t["resolved"]["key"]
+    return t["callee"]["key"] if t.get("callee") else None
+
+
+def _remap(j, nl, nb, file):
+    """Deep copy of a block list of a callee with locals shifted by nl and block ids by nb."""
+    def walk(x):
+        if isinstance(x, dict):
+            y = {k: walk(v) for k, v in x.items()}
+            if "l" in y and isinstance(y["l"], int):
+                y["l"] += nl
+            if "ix" in y and isinstance(y["ix"], int):
+                y["ix"] += nl
+            return y
+        if isinstance(x, list):
+            return [walk(v) for v in x]
+        return x
+    out = []
+    for blk in j:
+        nbk = walk(blk)
+        for s in nbk["stmts"]:
+            s.setdefault("file", file)
+        t = nbk["term"]
+        t.setdefault("file", file)
+        for k in ("target", "otherwise", "resume", "drop"):
+            if isinstance(t.get(k), int) and t[k] >= 0:
+                t[k] += nb
+        if t.get("targets"):
+            t["targets"] = [[v, b + nb] for v, b in t["targets"]]
+        out.append(nbk)
+    return out
+
+
+def inline_new_helpers(data, known, log=None):
+    """MIR-level inlining of helpers the rule vocabulary (tables/known_functions.txt) does not contain: the rules were written
+    against the functions of the reference tree, so code moved into a NEW private helper is analysed where it is called, by
+    every engine alike (paths, flow, panic sites, wake-ups). The helper's own body is dropped when every call was expanded."""
+    if not known:
+        return
+    for c, d in data.items():
+        by_key = {}
+        for bj in d["bodies"]:
+            by_key.setdefault(bj["id"]["key"], []).append(bj)
+        new = {k for k, v in by_key.items() if k not in known and "{closure" not in k and len(v) == 1 and not v[0]["coroutine"]}
+        if not new:
+            continue
+        left = set()
+        for rnd in range(3):
+            again = False
+            for bj in d["bodies"]:
+                i = 0
+                while i < len(bj["blocks"]):
+                    t = bj["blocks"][i]["term"]
+                    k = _term_key(t) if t["t"] == "call" else None
+                    if k in new and k != bj["id"]["key"] and by_key[k][0]["arg_count"] == len(t["args"]) and len(bj["blocks"]) < 4000:
+                        g = by_key[k][0]
+                        nl, nb = len(bj["locals"]), len(bj["blocks"])
+                        bj["locals"] = bj["locals"] + [dict(x, user=False) for x in g["locals"]]
+                        blocks = _remap(g["blocks"], nl, nb, g["file"])
+                        pos = {kk: t[kk] for kk in ("ln", "col") if kk in t}
+                        for nbk in blocks:
+                            if nbk["term"]["t"] == "return":
+                                nbk["stmts"].append(dict({"s": "assign", "p": t["dest"], "v": {"rv": "use", "op": {"k": "move", "p": {"l": nl}}}}, **pos))
+                                tgt = t.get("target")
+                                nbk["term"] = dict({"t": "goto", "target": tgt}, **pos) if isinstance(tgt, int) and tgt >= 0 else dict({"t": "unreachable"}, **pos)
+                        blk = bj["blocks"][i]
+                        for n, a in enumerate(t["args"]):
+                            blk["stmts"].append(dict({"s": "assign", "p": {"l": nl + n + 1}, "v": {"rv": "use", "op": a}}, **pos))
+                        blk["term"] = dict({"t": "goto", "target": nb}, **pos)
+                        bj["blocks"] += blocks
+                        bj.setdefault("inlined", []).append(k)
+                        again = True
+                        if log is not None:
+                            log.append((bj["id"]["key"], k))
+                    elif k in new:
+                        left.add(k)
+                    i += 1
+            if not again:
+                break
+        # drop helper bodies whose every call site was expanded (closures of other bodies may still call them: keep those)
+        still = set()
+        for bj in d["bodies"]:
+            for blk in bj["blocks"]:
+                t = blk["term"]
+                if t["t"] == "call" and _term_key(t) in new and bj["id"]["key"] not in new:
+                    still.add(_term_key(t))
+        called = {k for k, _ in [(kk, 0) for kk in new] if any(k in (bj.get("inlined") or []) for bj in d["bodies"])}
+        d["bodies"] = [bj for bj in d["bodies"] if not (bj["id"]["key"] in called and bj["id"]["key"] not in still and not bj["pub"])]
+
+
 class Program:
     def __init__(self, data, info=None):
         self.info = info or {}
         self.crates = data
+        self.inlined = []
+        self.renamed = []
+        cfg = self.info.get("config")
+        normalise_renames(data, _known_functions(cfg) if cfg else {}, _known_fields(), self.renamed)
+        inline_new_helpers(data, set(_known_functions(None)), self.inlined)
         self.bodies = []
         self.by_key = defaultdict(list)
         self.adts = {}
